@@ -184,6 +184,13 @@ def run(run, ix, tier):
     check_exact_root_exits(run, ix)
     check_half_integer_route(run, ix)
     check_powm1_exact_path(run, ix)
+    # E-X5: sqrt of a perfect square is exact under the downward modes only if the integer square root it takes is
+    # the exact floor root: the root-offset rules of the C37 module on isqrt_python / sqrtrem_python
+    from ..report import SubRun
+    from . import c37
+    run.rule('E-X5', floor=5, desc='the Python integer square roots return the exact floor root (rules Y-R6 / Y-R7 of C37)')
+    c37.check_root_exits(SubRun(run, keep=('Y-R6', 'Y-R7'), rename=lambda r: 'E-X5'), ix)
+    check_mod_pi2_escalation(run, ix)
     # ---- B-R8: real-axis delegation of the complex exp/trig family ---------------------------------
     run.rule('B-R8', floor=10, desc='complex exp/trig kernels delegate real-axis arguments to the real kernel')
     for name in AXIS_FAMILY:
@@ -421,6 +428,38 @@ def check_exact_root_exits(run, ix):
         run.fail(Finding('E-X1', LIBELE, 'exact_nthroot', 'def exact_nthroot', 'the candidates %s do not include '
                          'both neighbours of the truncated approximation (the approximation may lie on either '
                          'side of the root)' % sorted(cands), line=h.lineno))
+
+
+# --------------------------------------------------------------------------- E-X6
+def check_mod_pi2_escalation(run, ix):
+    """E-X6.  "tan, cot, sec and csc return finite values for every finite argument": next to a multiple of pi/2
+    the reduced argument is tiny, and mod_pi2 doubles its guard bits until the bits that survive the cancellation
+    suffice (`small >> (wp+mag-10)` non-zero).  An argument computed at a much higher precision can be closer than
+    any FIXED number of doublings covers; the loop must therefore be unbounded, with the success test as its only
+    exit, and the reduced values taken under that test."""
+    run.rule('E-X6', floor=2, desc='mod_pi2 escalates its guard bits until the cancellation test passes')
+    f = ix.func(LIBELE, 'mod_pi2')
+    loops = [x for x in _walk_own(f.node) if isinstance(x, (ast.While, ast.For))]
+    esc = [l for l in loops if any(isinstance(a, ast.Assign) and 'cancellation_prec' in norm(a.targets[0])
+                                   for a in ast.walk(l))]
+    if not esc:
+        raise AnalysisError('mod_pi2: escalation loop not found')
+    lp = esc[0]
+    if isinstance(lp, ast.While) and isinstance(lp.test, ast.Constant) and lp.test.value:
+        run.ok('E-X6', 'mod_pi2: the escalation loop is unbounded')
+    else:
+        run.fail(Finding('E-X6', LIBELE, 'mod_pi2', norm(lp), 'the escalation of the guard bits is bounded (`%s`): an '
+                         'argument closer to a multiple of pi/2 than the last step covers is reduced to 0 or noise, and '
+                         'tan / sec / cot / csc return 0 or raise ZeroDivisionError for a finite argument'
+                         % norm(lp, 50).split(':')[0], line=lp.lineno))
+    brk = [b for b in ast.walk(lp) if isinstance(b, ast.Break)]
+    ok = brk and all(isinstance(b._parent, ast.If) and 'small' in norm(b._parent.test) and '>>' in norm(b._parent.test)
+                     for b in brk)
+    if ok:
+        run.ok('E-X6', 'mod_pi2: the only exit is the success test `%s`' % norm(brk[0]._parent.test, 40))
+    else:
+        run.fail(Finding('E-X6', LIBELE, 'mod_pi2', norm(brk[0]) if brk else norm(lp), 'the escalation loop can be left '
+                         'without the cancellation test having passed', line=lp.lineno))
 
 
 # --------------------------------------------------------------------------- E-X4
